@@ -312,6 +312,7 @@ def run(ck, F):
     # spellings are one Logogram node (the constructor of logograms finds before it inserts)
     import borrow as _borrow
     _borrow.borrow(ck, F, 'C04', 'C15', {'NAMING'}, only=lambda inst: 'logogram' in inst.lower())
+    _borrow.borrow(ck, F, 'C04', 'C15', {'spelling-by-content'})
     import words as _words
     _W, _kw, _strays = _words.static_words_outside_table(F)
     R_tab_only = ck.rule('C15.static-words-in-the-table', 'every statically allocated word (an object of the class of the reserved-word table\'s '
